@@ -306,32 +306,46 @@ Definition val_node (fx : bool) (pk : list xml) (idx : nat) (n : string) (attrs 
   | VOther => []
   end.
 
-Fixpoint val_struct (fx : bool) (pk : list xml) (idx : nat) (x : xml) {struct x} : list rule :=
+(** [q]: false = the code as it is now; true = with the repair fixes/C04-mathml-qualifier-children.diff, which makes the
+    arity pass descend into the MathML children of degree / logbase / bvar once the qualifier's own checks pass. *)
+Definition is_qualifier (n : string) : bool :=
+  match vclass_of n with VDegree | VLogbase | VBvar => true | _ => false end.
+Definition qwrap (q : bool) (n : string) (r sub : list rule) : list rule :=
+  if q && is_qualifier n then match r with [] => sub | _ => r end else r.
+
+Fixpoint val_struct_q (q fx : bool) (pk : list xml) (idx : nat) (x : xml) {struct x} : list rule :=
   match x with
   | Elem ns n attrs kids =>
       if negb (String.eqb ns MATHML_NS) then [] else
-      val_node fx pk idx n attrs kids
-        ((fix go (ks : list xml) (i : nat) {struct ks} : list rule :=
-            match ks with
-            | [] => []
-            | k :: r => if is_mathml k then val_struct fx (mkids kids) i k ++ go r (S i) else go r i
-            end) kids 0)
+      let sub := (fix go (ks : list xml) (i : nat) {struct ks} : list rule :=
+                    match ks with
+                    | [] => []
+                    | k :: r => if is_mathml k then val_struct_q q fx (mkids kids) i k ++ go r (S i) else go r i
+                    end) kids 0 in
+      qwrap q n (val_node fx pk idx n attrs kids sub) sub
   | _ => []
   end.
 
-Fixpoint val_struct_kids (fx : bool) (mk : list xml) (ks : list xml) (i : nat) : list rule :=
+Fixpoint val_struct_kids_q (q fx : bool) (mk : list xml) (ks : list xml) (i : nat) : list rule :=
   match ks with
   | [] => []
-  | k :: r => if is_mathml k then val_struct fx mk i k ++ val_struct_kids fx mk r (S i) else val_struct_kids fx mk r i
+  | k :: r => if is_mathml k then val_struct_q q fx mk i k ++ val_struct_kids_q q fx mk r (S i) else val_struct_kids_q q fx mk r i
   end.
 
+(** flipped to true by the orchestrator when fixes/C04-mathml-qualifier-children.diff is committed to /repo *)
+Definition qualifier_fix_committed : bool := true.
+Definition val_struct (fx : bool) : list xml -> nat -> xml -> list rule := val_struct_q qualifier_fix_committed fx.
+Definition val_struct_kids (fx : bool) : list xml -> list xml -> nat -> list rule := val_struct_kids_q qualifier_fix_committed fx.
+
 (** validateMath on one <math> document (the DTD pass between pass 2 and pass 4 is not modelled) *)
-Definition val_math_env_gen (fx : bool) (vars units : list string) (root : xml) : list rule :=
+Definition val_math_env_gen2 (q fx : bool) (vars units : list string) (root : xml) : list rule :=
   if negb (is_mathml_el "math" root) then [R_MATH_ELEMENT]
   else
     (fix go (ks : list xml) : list rule := match ks with [] => [] | k :: r => val_supported k ++ go r end) (kids_of root)
     ++ val_cicn vars units root
-    ++ val_struct_kids fx (mkids (kids_of root)) (kids_of root) 0.
+    ++ val_struct_kids_q q fx (mkids (kids_of root)) (kids_of root) 0.
+Definition val_math_env_gen (fx : bool) : list string -> list string -> xml -> list rule :=
+  val_math_env_gen2 qualifier_fix_committed fx.
 
 (** flipped to true by the orchestrator when fixes/C01-mathml-arity.diff is committed to /repo *)
 Definition arity_fix_committed : bool := false.
